@@ -98,7 +98,7 @@ func runC19(c *core.Ctx) {
 	if c19Extra != nil {
 		c19Extra(c)
 	}
-	ruleDeferredErrorReachesCaller(c)
+	c.Guard(func() { ruleDeferredErrorReachesCaller(c) })
 	c.Check("C19-R1", "census", "all functions of package pdf and internal/filter were analysed", func(o *core.Ob) {
 		o.Count(nFuncs)
 		o.Fact("%d functions analysed, %d sinks examined", nFuncs, nFind)
